@@ -2229,3 +2229,6 @@ def run(ctx: Context):
                   "_build_guessed_tables sizes with the guessed segment count is rebuilt with the authoritative one",
                   expected=7) as r:
         run_authoritative_tables(ctx, r)
+
+    # the hashes the cap commits to are computed for all N shares, whoever receives them (shared with C05)
+    ctx.include("C05", ["C05.8"], "C01.12")
